@@ -34,7 +34,7 @@ func (m msg) String() string { return fmt.Sprintf("c%d:%s(%d)", m.Conn, m.Kind, 
 
 var startKinds = []string{"start", "start", "start", "start", "start-low-order-point", "start-low-order-point", "start-keylen-0", "start-keylen-1", "start-keylen-31", "start-keylen-33", "start-no-key", "start-method-unknown"}
 var finishKinds = []string{"finish-genuine", "finish-genuine", "finish-genuine", "finish-wrong-key", "finish-stale", "finish-reordered-material", "finish-replayed", "finish-unknown-name",
-	"finish-accessory-name", "finish-brings-own-key", "finish-brings-own-key-unknown-name", "finish-retired-key", "finish-retired-key", "finish-genuine-late", "finish-genuine-late", "finish-seal-zero-key", "finish-seal-random-key", "finish-seal-wrong-nonce", "finish-short", "finish-absent", "finish-garbage-tlv", "finish-empty-signature"}
+	"finish-accessory-name", "finish-names-keyless-entity", "finish-brings-own-key", "finish-brings-own-key-unknown-name", "finish-retired-key", "finish-retired-key", "finish-genuine-late", "finish-genuine-late", "finish-seal-zero-key", "finish-seal-random-key", "finish-seal-wrong-nonce", "finish-short", "finish-absent", "finish-garbage-tlv", "finish-empty-signature"}
 var otherKinds = []string{"unknown-step", "empty-body", "garbage", "replay-whole-exchange", "replay-whole-exchange", "rekey-stored", "rekey-stored"}
 
 var lowOrder = []string{
@@ -196,6 +196,14 @@ func (w *world) send(m msg) (label string, err error) {
 			}
 		case "finish-wrong-key":
 			plain = sign(w.attacker, ctl.ID, st.EphPublic, st.AccEph)
+		case "finish-names-keyless-entity":
+			name := []string{"keyless-guest", "short-key-guest"}[m.Arg%2]
+			info := append(append(append([]byte{}, st.EphPublic...), []byte(name)...), st.AccEph...)
+			sig := ed25519.Sign(w.attacker.LTSK, info)
+			if m.Arg%3 == 0 {
+				sig = make([]byte, 64)
+			}
+			plain = refctl.EncodeTLV8([]refctl.Item{{Tag: refctl.TagIdentifier, Value: []byte(name)}, {Tag: refctl.TagSignature, Value: sig}})
 		case "finish-brings-own-key", "finish-brings-own-key-unknown-name":
 			// like pair-setup's key exchange, the sealed block also carries a long-term public key (the signer's own):
 			// the key to verify against is the stored one, never one that arrives with the message
@@ -388,6 +396,10 @@ func newWorld(seed []byte, nstored, nconns int) (*world, error) {
 		l.DB.SaveEntity(db.NewEntity(c.ID, c.LTPK, nil))
 		w.stored = append(w.stored, c)
 	}
+	// entities that are stored but carry no usable key (an add-pairing request without key item stores one): naming
+	// them proves nothing
+	l.DB.SaveEntity(db.NewEntity("keyless-guest", nil, nil))
+	l.DB.SaveEntity(db.NewEntity("short-key-guest", []byte{1, 2, 3}, nil))
 	w.accID, w.accLTPK = l.Device.Name(), l.Device.PublicKey()
 	for i := 0; i < nconns; i++ {
 		w.conns = append(w.conns, &connState{c: l.NewConn()})
